@@ -9,14 +9,16 @@ namespace StreamEq
 
 open DState Safety
 
-/-- **The 20-byte bound (L3), assumed.**  With valid probability tables
-(`31 ≤ p ≤ 2017`), a normalised range (`2^24 ≤ range < 2^32`) and at least 20
-bytes of input, decoding one symbol never runs out of input.  (True: a symbol
-shrinks `range` by less than 160 bits; the numeric proof is a separate task.)
-Every theorem that depends on it carries it as an explicit hypothesis and is
-named `…_partial`. -/
+/-- **The 20-byte bound (L3).**  With valid probability tables (`31 ≤ p ≤ 2017`),
+a normalised range (`2^24 ≤ range < 2^32`) and at least 20 bytes of input,
+decoding one symbol never runs out of input — for every context whose two
+precomputed window reads do not themselves report `eof` (they never do: a window
+read fails with `lzma` or a panic).  A symbol shrinks `range` by less than 160
+bits.  Theorems named `…_partial` take this as an explicit hypothesis; it is
+proved in `StreamEquivNeed20.lean` (`need20`). -/
 def Need20 : Prop :=
-  ∀ (c : Ctx) (p : Probs) (rc : RC) (a : Bytes), ProbsInv p → RCInv rc → 20 ≤ a.length →
+  ∀ (c : Ctx) (p : Probs) (rc : RC) (a : Bytes), c.litRow ≠ .error .eof → c.matchByte ≠ .error .eof →
+    ProbsInv p → RCInv rc → 20 ≤ a.length →
     runDec true (symTree c) p rc ⟨a, false⟩ ≠ .error .eof
 
 /-! ## verdict equivalence -/
